@@ -220,7 +220,7 @@ class Check:
             return None
         return model
 
-    def diff(self, ops_file, impl_file, model_file, stateful=False, hbin=None, exe=None, exe_args=None, max_report=8):
+    def diff(self, ops_file, impl_file, model_file, stateful=False, hbin=None, exe=None, exe_args=None, max_report=8, fail_first=False):
         """line-by-line comparison. Pure (stateless) streams: a differing line is its own minimal case.
         Stateful streams are split into cases by '# case' comment lines and shrunk by delta debugging."""
         ops = open(ops_file).read().splitlines()
@@ -267,6 +267,12 @@ class Check:
             return
         # stateful: group by case
         cases = split_cases(ops)
+        if fail_first:
+            # (optional) report cases in which the implementation's own property oracle failed before mere
+            # correspondence mismatches, cut them at the first FAIL line and keep a FAIL line while shrinking
+            def has_fail(ab):
+                return any(impl[i].startswith("FAIL") or impl[i].startswith("panic") for i in range(ab[0], ab[1]))
+            cases = sorted(cases, key=lambda ab: 0 if has_fail(ab) else 1)
         reported = 0
         for (a, b) in cases:
             idx = [i for i in range(a, b) if (impl[i] != model[i] or impl[i].startswith("FAIL") or impl[i].startswith("panic")) and not ops[i].startswith("#")]
@@ -276,10 +282,17 @@ class Check:
                 continue
             reported += 1
             first = idx[0]
+            self._need_fail = False
+            if fail_first:
+                fl = [i for i in idx if impl[i].startswith("FAIL") or impl[i].startswith("panic")]
+                if fl:
+                    first = fl[0]
+                    self._need_fail = True
             case_ops = [o for o in ops[a:first + 1] if not o.startswith("#")]
             shrunk = case_ops
             if hbin and exe:
                 shrunk = self.shrink(case_ops, hbin, exe, exe_args)
+                self._need_fail = False
             isprop, det = self.classify_case(shrunk, hbin, exe, exe_args) if hbin and exe else (impl[first].startswith("FAIL") or impl[first].startswith("panic"), f"impl: {impl[first]} | model: {model[first]}")
             self.problems.append(Problem("property" if isprop else "correspondence",
                                          "property oracle fails on the implementation" if isprop else "model and implementation disagree",
@@ -307,6 +320,8 @@ class Check:
         if r is None:
             return False
         impl, model = r
+        if getattr(self, "_need_fail", False):
+            return any(a.startswith("FAIL") or a.startswith("panic") for a in impl)
         if len(impl) != len(model):
             return True
         return any((a != b or a.startswith("FAIL") or a.startswith("panic")) for a, b in zip(impl, model))
